@@ -69,6 +69,12 @@ fn hex32(name: &str) -> &'static str {
 
 /// decimal spelling of a symbolic integer shape
 fn shape_text(s: &str) -> &'static str {
+    // "n:<digits>" = that decimal number (boundaries of digit-count arithmetic in integer printers / readers)
+    if let Some(d) = s.strip_prefix("n:") {
+        if !d.is_empty() && d.bytes().all(|c| c.is_ascii_digit()) {
+            return Box::leak(d.to_string().into_boxed_str());
+        }
+    }
     match s {
         "0" => "0",
         "1" => "1",
